@@ -458,6 +458,54 @@ fn nameless_entries(out: &mut Vec<DetCase>) {
 	}
 }
 
+/// Bridge CHAINS: a synthetic bridge whose delegate is itself a synthetic bridge (A -> B -> C ...), in one class and
+/// across class / subclass, every link with its own, different, name in the GIVEN mappings, in both method orders.
+/// Each delegate receives the name the given mappings give to ITS bridge — never a name written earlier in the same
+/// call: C gets named(B), not named(A).
+fn chains(out: &mut Vec<DetCase>) {
+	// return types from the most special to the most general; link k has descriptor descs[k], link 0 is the real method
+	let descs = ["()Ljava/lang/Integer;", "()Ljava/lang/Number;", "()Ljava/lang/Comparable;", "()Ljava/io/Serializable;", "()Ljava/lang/Object;"];
+	for len in 2..=4usize {
+		for heads_first in [true, false] {
+			for flagged in [true, false] {
+				for split in [false, true] {
+					// split: the real method and the first bridge live in the super class S, the rest of the chain in E extends S
+					// (E redeclares the first bridge, forwarding to S's real method with invokespecial)
+					let mut jar = vec![class("I", None, &[]), class("S", None, &[]), class("E", Some("S"), &["I"])];
+					let f = ACC_PUBLIC | ACC_SYNTHETIC | if flagged { ACC_BRIDGE } else { 0 };
+					let home = if split { "S" } else { "E" };
+					let mut e_methods = vec![];
+					let hi = if split { 1 } else { 2 };
+					jar[hi].methods.push(meth(ACC_PUBLIC, "get", descs[0], Some(vec![])));
+					if split { jar[1].methods.push(meth(f, "get", descs[1], Some(vec![inv(CallKind::Virtual, "S", "get", descs[0])]))); }
+					for k in 1..=len {
+						let (owner, kind) = if k == 1 { (home, if split { CallKind::Special } else { CallKind::Virtual }) } else { ("E", CallKind::Virtual) };
+						e_methods.push(meth(f, "get", descs[k], Some(vec![inv(kind, owner, "get", descs[k - 1])])));
+					}
+					if heads_first { e_methods.reverse(); }
+					jar[2].methods.extend(e_methods);
+					// the most general link is declared by the interface I (its name there is inherited by nothing else)
+					jar[0].methods.push(meth(ACC_PUBLIC | ACC_ABSTRACT, "get", descs[len], None));
+					let ns_c = vec![s("official"), s("intermediary")]; let ns_n = vec![s("intermediary"), s("named")];
+					let e_cal: Vec<MMeth> = (0..=len).filter(|k| !(split && *k == 0)).map(|k| mmeth(descs[k], "get", &format!("m_{k}"))).collect();
+					let s_cal: Vec<MMeth> = if split { vec![mmeth(descs[0], "get", "m_0"), mmeth(descs[1], "get", "m_1")] } else { vec![] };
+					let mut maps = vec![];
+					// (a) every link named differently in E's own row
+					maps.push((MMappings { ns: ns_c.clone(), doc: None, classes: vec![mclass("E", "net/C_1", e_cal.clone()), mclass("S", "net/C_2", s_cal.clone()), mclass("I", "net/C_3", vec![mmeth(descs[len], "get", &format!("m_{len}"))])] },
+						MMappings { ns: ns_n.clone(), doc: None, classes: vec![mclass("net/C_1", "pkg/Impl", (0..=len).filter(|k| !(split && *k == 0)).map(|k| mmeth(descs[k], &format!("m_{k}"), &format!("name{k}"))).collect()), mclass("net/C_2", "pkg/Base", vec![])] }));
+					// (b) no renaming by calamus; only the bridges are named (the real method has no entry yet)
+					maps.push((MMappings { ns: ns_c.clone(), doc: None, classes: vec![] },
+						MMappings { ns: ns_n.clone(), doc: None, classes: vec![mclass("E", "E", (1..=len).map(|k| mmeth(descs[k], "get", &format!("name{k}"))).collect()), mclass("S", "S", vec![])] }));
+					// (c) the top link is named only in the interface (inherited), the links between in E's row, the first bridge not at all
+					maps.push((MMappings { ns: ns_c.clone(), doc: None, classes: vec![] },
+						MMappings { ns: ns_n.clone(), doc: None, classes: vec![mclass("I", "I", vec![mmeth(descs[len], "get", "fromInterface")]), mclass("E", "E", (2..len).map(|k| mmeth(descs[k], "get", &format!("name{k}"))).collect())] }));
+					out.push(DetCase { label: format!("bridges: chain of {len} bridges{}{}{}", if split { " across S and its subclass E" } else { " in one class" }, if heads_first { ", most general first" } else { ", most special first" }, if flagged { "" } else { " unflagged" }), g: JarGen { classes: jar, libs: vec![] }, maps });
+				}
+			}
+		}
+	}
+}
+
 pub fn det_cases() -> Vec<DetCase> {
 	let mut out = vec![];
 	diamonds(&mut out);
@@ -465,6 +513,7 @@ pub fn det_cases() -> Vec<DetCase> {
 	shared_delegate(&mut out);
 	two_supers(&mut out);
 	covariant_bridges(&mut out);
+	chains(&mut out);
 	nameless_entries(&mut out);
 	indy(&mut out);
 	invoke_kinds(&mut out);
